@@ -52,7 +52,8 @@ let need st w c = if not c then out st w
 let kind st k = if not (List.mem k st.kinds) then st.kinds <- k :: st.kinds
 (* classes whose defect has been repaired in /repo (fixed: entries of known_findings.txt) are no longer classes:
    a recurrence must be reported, and they must not shadow another class of the same case *)
-let repaired_classes = ["reif_len_mismatch"; "memory_dummy_varid"; "table_arity"; "len_mismatch_iter"; "element_nd_index"; "table_nd_arity"]
+let repaired_classes = ["reif_len_mismatch"; "memory_dummy_varid"; "table_arity"; "len_mismatch_iter"; "element_nd_index"; "table_nd_arity";
+                        "empty_domain_read"; "gcc_len"]
 let cls st k = if not (List.mem k repaired_classes) && not (List.mem k st.classes) then st.classes <- st.classes @ [k]
 
 let vix t = int_of_string (String.sub t 1 (String.length t - 1))
@@ -299,8 +300,9 @@ let rec spec_call st i (t : string list) =
     if tl <> "-" && List.exists (fun r -> List.length (parse_list r) <> n) (String.split_on_char '|' tl) then cls st "table_arity"
   | ["count"; _; _; _] | [("atleast" | "atmost" | "exactly"); _; _; _] -> ()
   | ["gcc"; _; vals; cnts] ->
-    (* one fixed variable per (value, count) pair is created inside the model, not handed to the program *)
-    ignore (vals, cnts)
+    (* one fixed variable per (value, count) pair is created inside the model, not handed to the program.
+       |values| <> |counts| is a documented invalid input since the repair routes_gcc_len: Model::gcc records InvalidConstraint *)
+    if List.length (parse_list vals) <> List.length (vlist cnts) then kind st "gcc_len_mismatch"
   | ["new"; c] -> (match Mlevel_cmd.parse_cons_opt c with Some c -> post_cons st c | None -> ())
   | ["fn"; op; l; r] -> post_cons st (CBin (Mlevel_cmd.parse_expr l, Mlevel_cmd.cmp_of op, Mlevel_cmd.parse_expr r))
   | _ -> failwith ("api: bad statement " ^ String.concat " " t)
